@@ -50,6 +50,7 @@ type Dataset struct {
 	Slice       string   `json:"slice,omitempty"` // Options.Slices: rendering of two partial reads
 	SliceErr    string   `json:"slice_err,omitempty"`
 	Sels        []SelObs `json:"sels,omitempty"` // Options.SelSeeds: generated partial reads
+	ChunkIter   *ChunkIterObs `json:"chunk_iter,omitempty"` // Options.SelSeeds, chunked datasets: what the chunk iterator walks
 
 	Attrs    []Attr `json:"attrs"`
 	AttrsErr string `json:"attrs_err,omitempty"`
@@ -81,6 +82,17 @@ type Sel struct {
 	Start, Count, Stride, Block []uint64
 	Slice                       bool // stride = block = 1: also expressible through ReadSlice
 }
+
+// ChunkIterObs is one pass of Dataset.ChunkIterator: the scaled coordinates in iteration order and, per chunk, the box
+// of elements it covers with the values Chunk() returned (the first MaxChunks chunks only).
+type ChunkIterObs struct {
+	Err    string     `json:"err,omitempty"`
+	Total  int        `json:"total"`
+	Coords [][]uint64 `json:"coords,omitempty"`
+	Chunks []SelObs   `json:"chunks,omitempty"`
+}
+
+const maxIterChunks = 96
 
 // SelObs is one generated partial read: the values as float64 bit patterns, or the error.
 type SelObs struct {
@@ -553,6 +565,51 @@ func Read(path string, opt Options) *File {
 					})
 					d.Sels = append(d.Sels, so)
 				}
+			}
+			if len(opt.SelSeeds) > 0 && d.Layout == 2 && len(d.Dims) > 0 && len(d.ChunkDims) >= len(d.Dims) && NumSelectable(d.Dims) {
+				ci := &ChunkIterObs{}
+				safe(f, p+" ChunkIterator", func() {
+					it, err := o.ChunkIterator()
+					if err != nil {
+						ci.Err = errStr(err)
+						return
+					}
+					ci.Total = it.Total()
+					for it.Next() {
+						if len(ci.Coords) >= maxIterChunks {
+							break
+						}
+						cc := append([]uint64{}, it.ChunkCoords()...)
+						ci.Coords = append(ci.Coords, cc)
+						r := len(d.Dims)
+						sel := Sel{Start: make([]uint64, r), Count: make([]uint64, r), Stride: make([]uint64, r), Block: make([]uint64, r), Slice: true}
+						inside := len(cc) == r
+						for i := 0; i < r && inside; i++ {
+							sel.Stride[i], sel.Block[i] = 1, 1
+							sel.Start[i] = cc[i] * d.ChunkDims[i]
+							if sel.Start[i] >= d.Dims[i] {
+								inside = false
+								break
+							}
+							sel.Count[i] = minU(d.ChunkDims[i], d.Dims[i]-sel.Start[i])
+						}
+						so := SelObs{Sel: sel}
+						if !inside {
+							so.Err = "outside the current extent"
+						} else if v, err := it.Chunk(); err != nil {
+							so.Err = errStr(err)
+						} else if bits, ok := toBits(v); ok {
+							so.Bits = bits
+						} else {
+							so.Err = fmt.Sprintf("result type %T not understood", v)
+						}
+						ci.Chunks = append(ci.Chunks, so)
+					}
+					if err := it.Err(); err != nil {
+						ci.Err = errStr(err)
+					}
+				})
+				d.ChunkIter = ci
 			}
 			d.Attrs, d.AttrsErr = attrsOf(f, p, o.Attributes)
 			if _, dup := f.Datasets[p]; dup {
